@@ -994,4 +994,22 @@ pub mod verif_hooks {
         let p = repo.progress_counter("");
         Ok(TreeStreamerOnce::new(repo.dbe(), repo.index(), ids, p)?.collect())
     }
+
+    /// As `stream_once`, but stops at the first error item like the callers of the streamer do (`?` on every item;
+    /// after an error the stream is dropped, it is not polled again).
+    pub fn stream_once_until_error<S: IndexedTree>(
+        repo: &Repository<S>,
+        ids: Vec<TreeId>,
+    ) -> RusticResult<Vec<RusticResult<(PathBuf, Tree)>>> {
+        let p = repo.progress_counter("");
+        let mut out = Vec::new();
+        for item in TreeStreamerOnce::new(repo.dbe(), repo.index(), ids, p)? {
+            let stop = item.is_err();
+            out.push(item);
+            if stop {
+                break;
+            }
+        }
+        Ok(out)
+    }
 }
